@@ -106,7 +106,9 @@ class SimMDP(AbstractEnv):
         else:
             raise ValueError(kind)
         # buckets per unit: comps[0] / span (both powers of two => exact in float32)
-        self.box_scale = jnp.asarray(float(self.comps[0]) / (box_high - box_low), dtype=float)
+        # one-sided boxes ([low, inf) or (-inf, high]) bucket as if the box had width 2 from its finite side
+        width = (box_high - box_low) if np.isfinite(box_high - box_low) else 2.0
+        self.box_scale = jnp.asarray(float(self.comps[0]) / width, dtype=float)
 
         if obs_kind == "box":
             self.observation_space = Box(-OBS_BOUND, OBS_BOUND, shape=(D,))
@@ -156,7 +158,8 @@ class SimMDP(AbstractEnv):
         low = jnp.asarray(self.action_space.low).reshape(-1)
         high = jnp.asarray(self.action_space.high).reshape(-1)
         ok = jnp.all((x >= low) & (x <= high)) & jnp.all(jnp.isfinite(x))
-        b = jnp.floor((x - low) * self.box_scale).astype(int)
+        anchor = jnp.where(jnp.isfinite(low), low, high - 2.0)
+        b = jnp.floor((x - anchor) * self.box_scale).astype(int)
         n = jnp.asarray(self.comps)
         b = jnp.clip(b, 0, n - 1)
         a = jnp.array(0, dtype=int)
